@@ -6,10 +6,10 @@ META = {
     "technique": "Lean 4 theorems over an executable model of kafka.Conn's response side: a size-threading reader monad (read.go/discard.go), parser programs interpreted over it (the readFrom methods, reflective struct layouts and the framing call table are regenerated from /repo by a go/ast translator on every run; the inline closures of conn.go/read.go are transcribed), (*Conn).do / waitResponse / ReadBatchWith+Batch as a connection state machine; byte conservation proved once for all parser programs by mutual induction; model<->code differential correspondence through a compiled Lean oracle driving the real Conn over net.Pipe against a scripted broker",
     "level_claimed": {
         "category": "proof",
-        "text": "Kernel-checked: for every operation going through (*Conn).do except list-offsets (metadata, brokers, controller, produce v2/v3/v7, create/delete topics, find coordinator, join/sync/leave group, heartbeat, list groups, offset commit/fetch, sasl handshake/authenticate), every negotiated version, EVERY byte content of a fully delivered response frame (so any int16 in any error field) and any following bytes: either the result is ok/a kafka error, exactly the frame was consumed, the Conn stays open and its state equals that of a fresh Conn at the next frame (aligned_or_closed, next_op_as_fresh), or the result is a non-kafka error and the Conn is closed, after which every operation fails (closed_stays_failed). Fetch: same statement for every byte-conserving message-set reader, under the hypothesis that a response at the high watermark carries an empty set (fetch_aligned_or_closed + counterexample). List-offsets relies on the shape of a well-formed answer: proved for every one-topic/one-partition frame (listOffsets_aligned_wf, all names, codes, values, trailing bytes) with a counterexample theorem for two partitions; ApiVersions (no expectZeroSize in the Go code): proved for every well-formed v0 frame (apiVersions_aligned_wf: any error code, any number of entries, any trailing bytes). The read lock (rlock) is released on every exit path of an exchange — peek error, ErrNoProgress, body read via do/ApiVersions, Batch.close — as regenerated facts (lock_facts_hold, lock_released_on_every_path, lock_released_fetch; leaked_lock_blocks + counterexamples: a leaked lock blocks every later operation forever). The D2 shape (no drain) is refuted by d2_regression_counterexample. Model tied to the code by regenerated parser programs/call table and by running the real Conn and the model on the same frames (op x version x error codes in every error field x following op).",
+        "text": "Kernel-checked over an executable model of kafka.Conn's response side whose parser programs are ALL regenerated from /repo or checked step-for-step against the regenerated ones (readFrom methods, reflective struct layouts, read.go fetch headers, conn.go element callbacks, ApiVersions; closures_regenerated + stepsEq_sound) and equal the Kafka layouts (gen_matches_spec). For every operation going through (*Conn).do (list-offsets included since fix C11-D34) and for ApiVersions (since fix C11-D33), every negotiated version, EVERY byte content of a fully delivered response frame (so any int16 in any error field) and any following bytes: either the result is ok/a kafka error, exactly the frame was consumed, the Conn stays open and its state equals that of a fresh Conn at the next frame (aligned_or_closed, next_op_as_fresh), or the result is a non-kafka error and the Conn is closed, after which every operation fails (closed_stays_failed); any NUMBER of operations in a row give, one by one, what each gives alone on a fresh connection holding only its own frame, up to the first failing one, after which all fail (sequence_aligned; mixed_sequence_aligned for operations AND fetches in any order, with fetch_depends_only_on_frame — locality of ReadBatchWith+Batch for every conserving, local message-set reader, both hypotheses discharged for the reader-stack model: stackBody_conserves, stackBody_local); the result of an exchange depends on its own frame's bytes only and whatever follows is left untouched (result_depends_only_on_frame: locality + conservation, two mutual inductions over all parser programs); a response under a foreign correlation id closes the Conn (desync_closes, fix C11-D30), so does one whose size prefix is below 4, negative ones included (bad_size_closes, bad_size_closes_fetch). Fetch: same statement for every byte-conserving message-set reader (fetch_aligned_or_closed), the conservation hypothesis discharged for the reader-stack accounting of message_reader.go (stack_run_adv, stack_discard_empties, regenerated facts). List-offsets additionally: every frame of the one-partition shape is consumed exactly (listOffsets_aligned_wf), unfixed shape refuted (listOffsets_two_partitions_counterexample); ApiVersions additionally: every well-formed frame is consumed exactly (apiVersions_aligned_wf), unfixed shape refuted (apiVersions_trailing_counterexample). The read lock is released on every exit path of an exchange (regenerated facts; lock_released_on_every_path, leaked_lock_blocks). D2 shape refuted (d2_regression_counterexample). Tied by running the real Conn and the model on the same frames: op x version x error codes in every error field (also in non-last array entries) x following op, partial reads of plain/compressed batches, Conn.Read/ReadMessage, framing-error frames, three-operation chains after a foreign correlation id.",
         "design_ref": "DESIGN.md §7 C11",
     },
-    "level_note": "Trusted: Lean kernel; propext/Quot.sound; the go/ast translator go/extract/connlegacy.go (restricted Go subset, anything else = untranslated = broken obligation); the hand transcription of the conn.go closures (readOffset, writeCompressedMessages), read.go fetch headers, (*Conn).do/waitResponse/Batch.close into Model/ConnOps.lean (checked by correspondence on sampled frames only); bufio.Reader/net.Conn modelled (Peek/Discard/ReadFull on a byte list followed by EOF); message_reader.go abstracted to 'any byte-conserving reader' (its internals belong to C02/C05); deadlines never expire in the model; frame size prefix >= 4; response layouts in the driver are transcribed from the Kafka protocol documentation (no broker in the sandbox). ApiVersions alignment is proved for well-formed frames only (the Go code does not check for trailing bytes).",
+    "level_note": "Trusted: Lean kernel; propext/Quot.sound; the go/ast translator go/extract/connlegacy.go (restricted Go subset, anything else = untranslated = broken obligation); the hand transcription of the conn.go closures (readOffset, writeCompressedMessages), read.go fetch headers, (*Conn).do/waitResponse/Batch.close into Model/ConnOps.lean (checked by correspondence on sampled frames only); bufio.Reader/net.Conn modelled (Peek/Discard/ReadFull on a byte list followed by EOF); message_reader.go abstracted to 'any byte-conserving reader' (its internals belong to C02/C05); deadlines never expire in the model; an honest frame size prefix or one below 4 (bad_size_closes); response layouts in the driver are transcribed from the Kafka protocol documentation (no broker in the sandbox).",
 }
 
 MODULE = "KafkaVerif.Props.C11"
@@ -17,10 +17,8 @@ MODULE = "KafkaVerif.Props.C11"
 
 def run(ctx):
     ctx.assumptions += [
-        "frames are fully delivered (C11) — truncation is C17; frame size prefix >= 4 (negative sizes are C20)",
-        "listOffsets: response has one topic with one partition (the request's shape) — listOffsets_aligned_wf; proved counterexample otherwise",
-        "fetch: a response whose high watermark equals the fetch offset carries an empty message set (counterexample theorem otherwise); message-set reader = any byte-conserving reader",
-        "apiVersions: well-formed v0 frame (no expectZeroSize in the Go code) — apiVersions_aligned_wf",
+        "frames are fully delivered (C11) — truncation is C17; a frame's size prefix is honest or below 4 (bad_size_closes: fail + closed); a prefix >= 4 that lies is judged by model agreement only",
+        "fetch: message-set reader = any byte-conserving reader (discharged for the reader-stack accounting of message_reader.go)",
         "deadlines do not expire during an exchange (checkTimeoutErr = io.EOF)",
         "read-lock discipline is a syntactic fact per exit path (go/extract/connlegacy: every break of the wait loop, the statements after waitResponse in do/ApiVersions/ReadBatchWith, Batch.close); blocking itself is observed with per-operation watchdogs (2 s Conn deadline, 4 s watchdog; generation stops after 5 blocked cases)",
     ]
@@ -62,6 +60,9 @@ def run(ctx):
                             "create/delete topics, findCoordinator, joinGroup v1/v2, heartbeat, leaveGroup, syncGroup, listGroups, offsetCommit, offsetFetch, "
                             "saslHandshake v0/v1, saslAuthenticate) x {no error, each error field with sampled codes incl. -1/32767/-32768/36, several fields at once} "
                             "x random shapes (array lengths, null strings, record sets v1/v2) x a following operation drawn from all operations (quick: 6 codes per field, 3 repetitions; thorough: all 21 codes, 10 repetitions). "
+                            "Further families: framing-error frames (trailing bytes / missing tail), damaged frames (one byte overwritten anywhere or an array count changed; 12 per op-version quick, 80 thorough; fetch: header bytes only), "
+                            "partial reads of fetch responses (every j of n records, Close at once, Conn.ReadMessage, Conn.Read; plain and gzip/snappy/lz4/zstd; 1-2 batches; v1 sets), responses at the high watermark that carry a set, "
+                            "three-operation chains after a response under a foreign correlation id (incl. stray id = next id). "
                             "distinct_nontrivial = distinct cases in which a broker error code was reported by A or B")
     concrete = [d for d in dis if d.get("kind") == "disagreement" and not d["holds_on_impl"]]
     others = [d for d in dis if d not in concrete]
